@@ -166,7 +166,9 @@ HARNESSES = [
            'thorough': ['len(body) <= 3 and 0 <= framing <= 2 and len(cuts) <= 3 and 0 <= spaces <= 2 and 0 <= overrun <= 2 and 0 <= status_i < %d' % len(_STATUSES)]},
       parts={'quick': [
           {'tag': 'f0_plain', 'fix': _fx(framing=0, lf_only=False, spaces=1, lower=False, fold=False, dup=False, extra=False, status_i=0)},
-          {'tag': 'statuses', 'fix': _fx(lf_only=False, spaces=1, lower=False, fold=False, dup=False, extra=False, overrun=0), 'pre': ['len(cuts) <= 1 and len(body) <= 1']},
+          {'tag': 'statuses_f0', 'fix': _fx(framing=0, lf_only=False, spaces=1, lower=False, fold=False, dup=False, extra=False, overrun=0), 'pre': ['len(cuts) == 0 and len(body) <= 1']},
+          {'tag': 'statuses_f1', 'fix': _fx(framing=1, lf_only=False, spaces=1, lower=False, fold=False, dup=False, extra=False, overrun=0), 'pre': ['len(cuts) == 0 and len(body) <= 1']},
+          {'tag': 'statuses_f2', 'fix': _fx(framing=2, lf_only=False, spaces=1, lower=False, fold=False, dup=False, extra=False, overrun=0), 'pre': ['len(cuts) == 0 and len(body) <= 1']},
           {'tag': 'f0_odd', 'fix': _fx(framing=0, lf_only=True, spaces=0, lower=True, fold=True, dup=True, extra=True, overrun=0, status_i=0), 'pre': ['len(cuts) <= 1']},
           {'tag': 'f0_odd2', 'fix': _fx(framing=0, lf_only=False, spaces=2, lower=False, fold=True, dup=False, extra=True, overrun=1, status_i=0), 'pre': ['len(cuts) <= 1']},
           {'tag': 'f1_plain', 'fix': _fx(framing=1, lf_only=False, spaces=1, lower=False, fold=False, dup=False, extra=False, overrun=0, status_i=0)},
